@@ -7,6 +7,8 @@ git apply --check "$PATCH" || { echo "patch does not apply"; exit 2; }
 if [ -n "$DEMO" ]; then /venv/bin/python "$DEMO" >/dev/null 2>&1; echo "demo(clean) rc=$?"; fi
 git apply "$PATCH"
 if [ -n "$DEMO" ]; then /venv/bin/python "$DEMO" >/dev/null 2>&1; echo "demo(patched) rc=$?"; fi
+cp /verif/evidence/$PROP.json /tmp/evidence_$PROP.bak 2>/dev/null
 cd /verif && ./check "$PROP" 2>&1 | grep -v "^WARNING" | tail -${TAILN:-6} | cut -c1-230
 echo "check rc=$?"
 git -C /repo checkout -- . && git -C /repo status --short
+[ -f /tmp/evidence_$PROP.bak ] && mv /tmp/evidence_$PROP.bak /verif/evidence/$PROP.json
